@@ -20,6 +20,9 @@ T = {
  'C26-s1': ('C26', 'variable written in one CASE branch and read in a later CASE branch dropped from uses_symbols of the SELECT CASE', 'caught by ./check C26 (dataflow:uses_symbols:MultiConditional:select-case:t)', 'caught'),
  'C33-s1': ('C33', 'outline pragma with explicit out(v) for a variable the analysis derives as inout, plus another derived out variable', 'missed; caught after pragma-narrows-inout-to-out / pragma-out-plus-derived-out templates', 'caught-after-strengthening'),
  'C34-s1': ('C34', 'rank-reducing section with the fixed subscript not last (a(i,:,:)) passed to an assumed-shape dummy, then explicit-shape transformation', 'missed; caught after argshape/section-* templates', 'caught-after-strengthening'),
+ 'C36-s1': ('C36', 'array section whose upper bound or stride contains a subscripted array (a(lo(j):hi(j))): stop/step keep the one-based inner subscript', 'missed (section bounds had to be concrete); caught after input index arrays with fixed values were added (section-bounds/stride/rhs-bounds-from-index-arrays: IndexError found by the solver path, confirmed by CPython)', 'caught-after-strengthening'),
+ 'C17-s1': ('C17', 'declaration whose initial value references other symbols (nn = 2*n0 + 1) without kind: the re-scoped initial expression is dropped, the clone keeps symbols attached to the original', 'missed; caught after clone-symbols-scoped-through-clone (structural) and retype-original-parameters-then-inline-clone (solver + gfortran replay: -1.5 vs -13.0) cases', 'caught-after-strengthening'),
+ 'C16-s1': ('C16', 'pragma attached to a loop / call inside an ELSE or ELSE IF branch: the detacher skips else bodies', 'missed (corpus had no pragmas, pragmas had no observable); caught after pragma annotations became part of the observable trace (Interp.trace_pragmas, position-indexed trace equivalence, pragma-as-print gfortran replay) and 9 pragma-rich templates were added (6 violations)', 'caught-after-strengthening'),
  'C37-s1': ('C37', 'kernel temporary declared with upper-case letters, written before and read after a nested kernel call (vector pipelines)', 'missed; caught after the temp-across-nested-call call tree and upper-case spelling variants were added', 'caught-after-strengthening'),
 }
 for name, (prop, needs, verdict, status) in T.items():
